@@ -353,7 +353,8 @@ def gen_engineered_lookahead_case(rng):
     """Candidates with prescribed (length, lookahead length) splits of one base word, so that
     extents tie or interleave: pattern = (generalised) prefix of the word, positive lookahead =
     (generalised) following piece; token types are shuffled against the listing order."""
-    alpha = ['a', 'b', 'c']
+    # byte lengths 1..4 so that extents measured in bytes and in characters differ
+    alpha = rng.choice([['a', 'b', 'c'], ['a', 'b', 'c'], ['a', '\u00e9', '\u20ac'], ['\u00e4', 'b', '\U0001F600'], ['\u00e9', '\u20ac', '\U0001F600']])
     n = rng.randint(2, 6)
     w = [rng.choice(alpha) for _ in range(n)]
     # make runs likely so that x+ generalisations have several lengths
